@@ -693,4 +693,156 @@ theorem floodFill_stack_bound (ok : CsrOk nr rownnz rowadr colind) {i : Nat} (hi
   · rw [if_neg hl'] at hb
     omega
 
+/-- the outer loop passes through the state "after the vertices `< i`" (the `hpre` of
+    `floodFill_stack_bound`) for every `i < nr`, and continues with `ffOuterStep … i` from there -/
+theorem floodFill_split (nr : Nat) (rownnz rowadr colind : Array Nat) (i : Nat) (hi : i < nr) :
+    floodFill nr rownnz rowadr colind =
+      ((List.range i).foldlM (ffOuterStep rownnz rowadr colind) (Array.replicate nr (-1), 0)).bind fun st =>
+        (ffOuterStep rownnz rowadr colind st i).bind fun st' =>
+          (List.range' (i + 1) (nr - (i + 1))).foldlM (ffOuterStep rownnz rowadr colind) st' := by
+  have e : List.range nr = List.range i ++ i :: List.range' (i + 1) (nr - (i + 1)) := by
+    rw [List.range_eq_range', List.range_eq_range']
+    have : nr = i + (nr - (i + 1) + 1) := by omega
+    conv => lhs; rw [this]
+    rw [← List.range'_append_1, List.range'_succ]
+    simp
+  unfold floodFill
+  rw [e, List.foldlM_append]
+  rfl
+
+/-! ### non-vacuity: a concrete symmetric graph
+
+`ffInner` is defined by well-founded recursion, which the kernel does not evaluate; the example therefore
+runs a fuel-bounded structural copy that is proved to agree with the model whenever the fuel suffices. -/
+
+/-- fuel-bounded copy of `ffInner` (structural recursion, so that the kernel can evaluate it); the outer
+    `none` means "out of fuel" -/
+def ffInnerF (rownnz rowadr colind : Array Nat) (c : Nat) :
+    Nat → Array Int → List Nat → Option (Option (Array Int))
+  | 0, _, _ => none
+  | _ + 1, island, [] => some (some island)
+  | f + 1, island, v :: rest =>
+    if h : v < island.size then
+      if island[v] = -1 then
+        match ffNeighbors rownnz rowadr colind v with
+        | some ns => ffInnerF rownnz rowadr colind c f (island.set v (c : Int)) (ns.reverse ++ rest)
+        | none => some none
+      else ffInnerF rownnz rowadr colind c f island rest
+    else some none
+
+theorem ffInnerF_eq {rownnz rowadr colind : Array Nat} {c : Nat} (f : Nat) (island : Array Int)
+    (stack : List Nat) (r : Option (Array Int))
+    (h : ffInnerF rownnz rowadr colind c f island stack = some r) :
+    ffInner rownnz rowadr colind c island stack = r := by
+  induction f generalizing island stack with
+  | zero => simp [ffInnerF] at h
+  | succ f ih =>
+    cases stack with
+    | nil => simp [ffInnerF] at h; simp [ffInner, h]
+    | cons v rest =>
+      rw [ffInner]
+      rw [ffInnerF] at h
+      split at h
+      · rename_i hlt
+        rw [dif_pos hlt]
+        split at h
+        · rename_i hv
+          rw [dif_pos hv]
+          split at h
+          · rename_i ns hn
+            rw [hn]
+            exact ih _ _ h
+          · rename_i hn
+            rw [hn]
+            injection h
+        · rename_i hv
+          rw [dif_neg hv]
+          exact ih _ _ h
+      · rename_i hlt
+        rw [dif_neg hlt]
+        injection h
+
+def ffOuterStepF (rownnz rowadr colind : Array Nat) (f : Nat) (s : Array Int × Nat) (i : Nat) :
+    Option (Array Int × Nat) :=
+  match s.1[i]?, rownnz[i]? with
+  | some isl, some n =>
+    if isl ≠ -1 ∨ n = 0 then some s
+    else
+      match ffInnerF rownnz rowadr colind s.2 f s.1 [i] with
+      | some (some island') => some (island', s.2 + 1)
+      | _ => none
+  | _, _ => none
+
+theorem ffOuterStepF_eq {rownnz rowadr colind : Array Nat} (f : Nat) (s : Array Int × Nat) (i : Nat)
+    (r : Array Int × Nat) (h : ffOuterStepF rownnz rowadr colind f s i = some r) :
+    ffOuterStep rownnz rowadr colind s i = some r := by
+  unfold ffOuterStepF at h
+  unfold ffOuterStep
+  split at h
+  · rename_i isl n h1 h2
+    simp only [h1, h2]
+    split at h
+    · rename_i hc; rw [if_pos hc]; exact h
+    · rename_i hc
+      rw [if_neg hc]
+      split at h
+      · rename_i island' he
+        rw [ffInnerF_eq _ _ _ _ he]
+        exact h
+      · cases h
+  · cases h
+
+theorem foldlM_F_eq {rownnz rowadr colind : Array Nat} (f : Nat) (l : List Nat) (s r : Array Int × Nat)
+    (h : l.foldlM (ffOuterStepF rownnz rowadr colind f) s = some r) :
+    l.foldlM (ffOuterStep rownnz rowadr colind) s = some r := by
+  induction l generalizing s with
+  | nil => exact h
+  | cons a t ih =>
+    rw [List.foldlM_cons] at h ⊢
+    cases hs : ffOuterStepF rownnz rowadr colind f s a with
+    | none => rw [hs] at h; cases h
+    | some s' =>
+      rw [hs] at h
+      rw [ffOuterStepF_eq f s a s' hs]
+      exact ih s' h
+
+/-- edges 0-3, 3-4, 1-2; vertex 5 has no edges -/
+def exNnz : Array Nat := #[1,1,1,2,1,0]
+def exAdr : Array Nat := #[0,1,2,3,5,6]
+def exCol : Array Nat := #[3,2,1,0,4,3]
+
+theorem exOk : CsrOk 6 exNnz exAdr exCol := ⟨rfl, rfl, by decide, by decide⟩
+
+theorem adj_iff {rownnz rowadr colind : Array Nat} (u v : Nat) :
+    Adj rownnz rowadr colind u v ↔ v ∈ (ffNeighbors rownnz rowadr colind u).getD [] := by
+  unfold Adj
+  cases ffNeighbors rownnz rowadr colind u <;> simp
+
+theorem exSymm : ∀ u v, Adj exNnz exAdr exCol u v → Adj exNnz exAdr exCol v u := by
+  intro u v h
+  obtain ⟨hu, hv⟩ := adj_lt exOk h
+  rw [adj_iff] at h ⊢
+  have key : ∀ u, u < 6 → ∀ v, v < 6 → v ∈ (ffNeighbors exNnz exAdr exCol u).getD [] →
+      u ∈ (ffNeighbors exNnz exAdr exCol v).getD [] := by decide
+  exact key u hu v hv h
+
+theorem exRun : floodFill 6 exNnz exAdr exCol = some (#[0,1,1,0,0,-1], 2) :=
+  foldlM_F_eq 10 _ _ _ (by decide)
+
+
+example : CsrOk 6 exNnz exAdr exCol ∧
+    (∀ u v, Adj exNnz exAdr exCol u v → Adj exNnz exAdr exCol v u) ∧
+    floodFill 6 exNnz exAdr exCol = some (#[0, 1, 1, 0, 0, -1], 2) :=
+  ⟨exOk, exSymm, exRun⟩
+
+/-- the hypotheses of `floodFill_components` are satisfiable (and its conclusion applies to the run above) -/
+example := floodFill_components exOk exSymm exRun
+
+/-- the hypotheses of `floodFill_stack_bound` are satisfiable: the DFS started at vertex 1 after vertex 0
+    has been processed; after labelling 1 and pushing its neighbour the stack is `[2]`, and `nnz = 6` -/
+example : ([2] : List Nat).length ≤ exNnz.toList.sum :=
+  floodFill_stack_bound exOk (i := 1) (by decide) (isl := #[0, -1, -1, 0, 0, -1]) (n := 1)
+    (foldlM_F_eq 10 _ _ _ (by decide)) (by decide) (by decide)
+    (InnerCalls.push (ns := [2]) (by decide) (by decide) (by decide) (InnerCalls.self _ _))
+
 end MjProof.Island
